@@ -36,7 +36,7 @@ func runC03(c *Ctx) {
 	c03R1(c, p)
 	c03R2(c, p)
 	c03R3(c, p)
-	c03R4(c, p)
+	c03R4(c, p, "C03.R4")
 	c03R5(c, p)
 	rulePairs(c, p, "C03.R6")
 }
@@ -550,8 +550,7 @@ func pieceAtCaptureSq(v ssa.Value) *ssa.UnOp {
 
 // ---- R4: hash-history stack ----
 
-func c03R4(c *Ctx, p *Prog) {
-	const rule = "C03.R4"
+func c03R4(c *Ctx, p *Prog, rule string) {
 	allowed := map[string]string{
 		"board.(*Board).MakeMove": "push", "board.(*Board).MakeNullMove": "push",
 		"board.(*Board).UndoMove": "pop", "board.(*Board).UndoNullMove": "pop",
